@@ -71,6 +71,7 @@ pub enum AOut {
     WhoAreYou((u64, u64), ANonce),
     RequestFailed(u64, u64),
     Unverifiable(AEnr, u64, u64),
+    Expired(Vec<(u64, u64)>),
 }
 
 fn ob(o: &Option<u64>) -> String {
@@ -263,6 +264,12 @@ impl AOut {
                 r.enc(e);
                 e.n(*a).n(*i);
             }
+            AOut::Expired(l) => {
+                e.n(6).n(l.len() as u64);
+                for (i, a) in l {
+                    e.n(*i).n(*a);
+                }
+            }
         }
     }
 }
@@ -384,6 +391,8 @@ pub struct World {
     // ledgers for the monitors
     reqs: Vec<OutReq>,
     /// WHOAREYOU packets the local node has sent and that are not answered/expired: (peer, cd bytes, nonce, sent at)
+    ttl_ms: u64,
+    last_touch: BTreeMap<u64, u64>,
     out_challenges: Vec<(usize, Vec<u8>, MessageNonce, u64, SocketAddr)>,
     /// challenges whose timer has certainly run out (the live ledger over-approximates)
     expired_challenges: Vec<(usize, Vec<u8>, MessageNonce, u64, SocketAddr)>,
@@ -477,6 +486,8 @@ impl World {
             cds: vec![],
             now: 0,
             reqs: vec![],
+            ttl_ms: 86_400_000,
+            last_touch: BTreeMap::new(),
             out_challenges: vec![],
             expired_challenges: vec![],
             consumed_cds: BTreeSet::new(),
@@ -593,7 +604,7 @@ impl World {
             ),
             HandlerOut::UnverifiableEnr { enr, socket, node_id } => AOut::Unverifiable(self.it.enr(enr), self.it.addr(socket), self.it.id(node_id)),
             HandlerOut::UnrecognizedFrame(_) => return None,
-            HandlerOut::ExpiredSessions(_) => return None,
+            HandlerOut::ExpiredSessions(l) => AOut::Expired(l.iter().map(|na| (self.it.id(&na.node_id), self.it.addr(&na.socket_addr))).collect()),
         })
     }
 }
@@ -718,6 +729,9 @@ impl Runner {
         let config = cb.build();
         let mut w = w;
         w.capacity = capacity;
+        if let Some(t) = session_timeout {
+            w.ttl_ms = t.as_millis() as u64;
+        }
         let vh = VirtualHandler::spawn(
             Arc::new(RwLock::new(w.local_enr.clone())),
             Arc::new(RwLock::new(CombinedKey::secp256k1_from_bytes(&mut w.local_key.encode()).unwrap())),
@@ -757,6 +771,9 @@ impl Runner {
         let mut outs = vec![];
         let mut deferred_outs = vec![];
         for (k, o) in outs_raw.iter().enumerate() {
+            if let HandlerOut::ExpiredSessions(l) = o {
+                self.w.hist.add(&format!("event:ExpiredSessions({})", l.len().min(3)));
+            }
             if let Some(a) = self.w.abstract_out(o) {
                 outs.push(a);
             }
@@ -822,7 +839,7 @@ impl Runner {
         for id in take_internal_request_ids() {
             draws_rid.push(self.w.it.rid(&id));
         }
-        let step = Step { coq_event, now: self.w.now, outs, wires, exemptions: ex, sessions: active_sessions() as u64, draws_pk, draws_rid, hs_no_enr, new_internal };
+        let step = Step { coq_event, now: self.w.now, outs, wires, exemptions: ex, sessions: session_count() as u64, draws_pk, draws_rid, hs_no_enr, new_internal };
         self.monitor_step(&step);
         self.steps.push(step);
     }
@@ -1001,6 +1018,62 @@ impl Runner {
     }
 
     fn monitor_step(&mut self, s: &Step) {
+        // C15: a session that has not been used for longer than the session timeout is not used again.
+        // "Used" is over-approximated by "anything at all happened that involves the peer's address"
+        // (so the monitor can only be too lenient); a step that sets up a new session is exempt.
+        {
+            let ev_addr: Option<u64> = {
+                let t: Vec<&str> = s.coq_event.split(|c: char| c == ' ' || c == '(' || c == ')' || c == ',').filter(|x| !x.is_empty()).collect();
+                match t.first().copied() {
+                    Some("EvRequest") => t.get(3).and_then(|x| x.parse().ok()),
+                    Some("EvResponse") | Some("EvWhoAreYou") => t.get(2).and_then(|x| x.parse().ok()),
+                    Some("EvInbound") => t.get(1).and_then(|x| x.parse().ok()),
+                    _ => None,
+                }
+            };
+            let fresh: Vec<u64> = s
+                .outs
+                .iter()
+                .filter_map(|o| match o {
+                    AOut::Established(_, a, _) | AOut::Unverifiable(_, a, _) => Some(*a),
+                    _ => None,
+                })
+                .chain(s.wires.iter().filter_map(|(d, p)| if matches!(p, APkt::Hs { .. }) { Some(d.1) } else { None }))
+                .collect();
+            let mut used: Vec<(u64, &str)> = vec![];
+            for (d, p) in &s.wires {
+                if matches!(p, APkt::Msg { ct: ACt::Enc(..), .. }) {
+                    used.push((d.1, "encrypt"));
+                }
+            }
+            for o in &s.outs {
+                if let AOut::Request(na, _, _) | AOut::Response(na, _, _) = o {
+                    used.push((na.1, "accept"));
+                }
+            }
+            for (a, how) in used {
+                if fresh.contains(&a) {
+                    continue;
+                }
+                if let Some(t0) = self.w.last_touch.get(&a) {
+                    if s.now > *t0 + self.w.ttl_ms {
+                        self.w.failures.push(("C15".into(), format!("a session was used to {} a message although nothing had involved that peer for longer than the session timeout", how)));
+                    }
+                }
+            }
+            let mut touched: Vec<u64> = s.wires.iter().map(|(d, _)| d.1).collect();
+            touched.extend(ev_addr);
+            for o in &s.outs {
+                match o {
+                    AOut::Established(_, a, _) | AOut::Unverifiable(_, a, _) => touched.push(*a),
+                    AOut::Request(na, _, _) | AOut::Response(na, _, _) | AOut::WhoAreYou(na, _) => touched.push(na.1),
+                    _ => {}
+                }
+            }
+            for a in touched {
+                self.w.last_touch.insert(a, s.now);
+            }
+        }
         // C15: the number of sessions held never exceeds the configured capacity
         if s.sessions as usize > self.w.capacity {
             self.w.failures.push(("C15".into(), format!("{} sessions are held although the configured capacity is {}", s.sessions, self.w.capacity)));
@@ -1103,7 +1176,8 @@ impl Runner {
         let id = self.w.it.id(&c.node_id());
         let a = self.w.it.addr(&c.socket_addr());
         let e = c.enr().map(|e| self.w.it.enr(&e));
-        format!("(C {} {} {})", id, a, coq_oenr(&e))
+        let ed = !matches!(c.public_key(), discv5::enr::CombinedPublicKey::Secp256k1(_));
+        format!("({} {} {} {})", if ed { "Ced" } else { "C" }, id, a, coq_oenr(&e))
     }
 
     async fn app_request(&mut self, rng: &mut Rng, pi: usize, with_enr: bool, kind: u8) {
@@ -1675,7 +1749,7 @@ fn gen_move(rng: &mut Rng, npeers: usize, focus: &str) -> Move {
     let p = if rng.chance(1, 6) { npeers } else { p_secp };
     // focus names ending in "ed" also address requests to the Ed25519 node (monitor-only runs: the
     // model covers secp256k1 contacts only, for which building the handshake cannot fail)
-    let p_req = if focus.ends_with("ed") && rng.chance(1, 3) { npeers } else { p_secp };
+    let p_req = if (focus.ends_with("ed") && rng.chance(1, 3)) || rng.chance(1, 10) { npeers } else { p_secp };
     match rng.weighted(w) {
         0 => Move::AppRequest { peer: p_req, with_enr: rng.chance(2, 3), kind: rng.below(3) as u8 },
         1 => Move::AppSelfRequest,
@@ -1722,7 +1796,10 @@ async fn run_case(seed: u64, idx: u64, focus: &str, thorough: bool, fixes: &str)
     let npeers = rng.range(2, 3) as usize;
     let retries = *rng.pick(&[1u8, 1, 2, 3]);
     let capacity = *rng.pick(&[1usize, 2, 1000, 1000]);
-    let mut r = Runner::new(&mut rng, npeers, retries, capacity).await;
+    // the session timeout: the default (a day) or a few request timeouts, so that sessions expire
+    // between exchanges (the cache reads the paused tokio clock in these runs)
+    let ttl_ms: u64 = if focus == "c15x" { *rng.pick(&[1500u64, 1500, 2500, 4000]) } else { *rng.pick(&[86_400_000u64, 86_400_000, 1500, 2500, 4000]) };
+    let mut r = Runner::new_with(&mut rng, npeers, retries, capacity, Some(Duration::from_millis(ttl_ms))).await;
     let nmoves = if thorough { rng.range(30, 90) } else { rng.range(15, 45) };
     let focus_prop = focus.chars().take(3).collect::<String>().to_uppercase();
     let mut moves = vec![];
@@ -1745,6 +1822,66 @@ async fn run_case(seed: u64, idx: u64, focus: &str, thorough: bool, fixes: &str)
             r.app_request(&mut rng, p, true, 2).await;
         }
         moves.push("scripted: requests, re-key by the peer, message under the old keys, requests".into());
+    }
+    // scripted opening for session expiry (short session timeouts only): sessions with one or two
+    // peers, silence for longer than the timeout (or just short of it), then traffic in either
+    // direction and a new session with another peer (which purges and reports the expired ones)
+    if ttl_ms < 10_000 && rng.chance(if focus == "c15x" { 2 } else { 1 }, 3) {
+        let p = rng.below(npeers as u64) as usize;
+        let q = (p + 1) % npeers;
+        r.app_request(&mut rng, p, true, 0).await;
+        let q0 = r.w.reqs.len() - 1;
+        r.net_whoareyou(&mut rng, FORCE + q0).await;
+        r.net_answer(&mut rng, FORCE + q0, 6).await;
+        if rng.chance(1, 2) {
+            r.app_request(&mut rng, q, true, 0).await;
+            let q1 = r.w.reqs.len() - 1;
+            r.net_whoareyou(&mut rng, FORCE + q1).await;
+            r.net_answer(&mut rng, FORCE + q1, 6).await;
+        }
+        // variant: the session timeout elapses inside a handshake round trip - a request goes out on
+        // the still valid session, the peer's WHOAREYOU for it arrives after the session has expired
+        // (the new session must not inherit the keys of the expired one), then a datagram under the
+        // old keys arrives
+        if retries >= 2 && ttl_ms < TIMEOUT_MS * 2 - 100 && rng.chance(if focus == "c15x" { 2 } else { 1 }, 3) {
+            r.app_request(&mut rng, p, true, 0).await;
+            let q3 = r.w.reqs.len() - 1;
+            r.advance(ttl_ms / GRID_MS + 2 + rng.below(20)).await;
+            r.net_whoareyou(&mut rng, FORCE + q3).await;
+            let n_old = r.steps.len();
+            let had_old_keys = r.w.peers[p].keys.len() >= 2;
+            r.net_request(&mut rng, p, true).await;
+            if had_old_keys && r.steps[n_old..].iter().any(|s| s.outs.iter().any(|o| matches!(o, AOut::Request(..)))) {
+                r.w.failures.push(("C15".into(), "a message under the keys of a session that had expired before the new handshake was accepted".into()));
+            }
+            r.net_request(&mut rng, p, false).await;
+            r.w.hist.add("scripted:session_expires_inside_handshake");
+            moves.push("scripted: request on a valid session, WHOAREYOU after the session expired, datagram under the old keys".into());
+        }
+        // idle: around the session timeout (the boundary itself included)
+        let idle = match rng.below(4) {
+            0 => ttl_ms / GRID_MS - 3,
+            1 => ttl_ms / GRID_MS - 1,
+            2 => ttl_ms / GRID_MS + 1,
+            _ => ttl_ms / GRID_MS + 40,
+        };
+        r.advance(idle).await;
+        match rng.below(4) {
+            0 => r.app_request(&mut rng, p, true, 2).await,
+            1 => r.net_request(&mut rng, p, false).await,
+            2 => {
+                r.net_random(&mut rng, q).await;
+                r.app_answer_wru(0, 1).await;
+                r.net_handshake(&mut rng, 0, HsVariant::Honest).await;
+            }
+            _ => {
+                r.app_request(&mut rng, q, false, 0).await;
+                let q2 = r.w.reqs.len() - 1;
+                r.net_whoareyou(&mut rng, FORCE + q2).await;
+            }
+        }
+        r.w.hist.add("scripted:session_expiry");
+        moves.push(format!("scripted: sessions, idle for {} ms (session timeout {} ms), then traffic", idle * GRID_MS, ttl_ms));
     }
     // scripted opening: a FINDNODE answered by a NODES response in three packets (all delivered, or
     // one missing), another request to the same peer in flight, then a full timeout passes
@@ -1828,13 +1965,14 @@ async fn run_case(seed: u64, idx: u64, focus: &str, thorough: bool, fixes: &str)
     let f: Vec<&str> = fixes.split(',').collect();
     let fx = |n: &str| coq_bool(f.contains(&n) || f.contains(&"all"));
     let cfg = format!(
-        "(Cfg {} {} {} {} [{}] {} {} {} {} {} {})",
+        "(Cfg {} {} {} {} [{}] {} {} {} {} {} {} {})",
         local,
         lenr.coq(),
         retries,
         TIMEOUT_MS,
         listen,
         capacity,
+        ttl_ms,
         GRID_MS,
         fx("d1"),
         fx("d2a"),
@@ -1992,6 +2130,8 @@ pub fn main(args: &[String]) {
         Some(x) => vec![x],
         None => (0..o.cases).collect(),
     };
+    // the session cache reads the paused tokio clock, except in the c15 runs, which use real sleeps
+    discv5::verif::cache::set_virtual_clock(focus != "c15");
     if focus == "c15" {
         let mut n_expired = 0u64;
         for idx in range {
